@@ -34,6 +34,7 @@ class C11(Check):
 
     def prepare(self):
         self.reqs = dialogues.nominal_requests()
+        self.reqs.pop("uiHeartbeat-inplace", None)     # device outside signer mode: not C11's scope
         self.nominal = {}
         self.pre_violations = []
         for name in self.reqs:
